@@ -41,15 +41,16 @@ type variant struct {
 }
 
 var variants = map[string]*variant{
-	"plain":       {name: "plain"},
-	"instr":       {name: "instr", instr: true},
-	"instr-race":  {name: "instr-race", instr: true, race: true},
-	"instrw":      {name: "instrw", instr: true, wide: true},
-	"instrw-race": {name: "instrw-race", instr: true, wide: true, race: true},
-	"instrs":      {name: "instrs", instr: true, wide: true, strobe: true},
-	"noavx2":      {name: "noavx2", godebug: "cpu.avx2=off", binOf: "plain"},
-	"purego":      {name: "purego", tags: "purego"},
-	"force32bit":  {name: "force32bit", tags: "force32bit"},
+	"plain":         {name: "plain"},
+	"instr":         {name: "instr", instr: true},
+	"instr-race":    {name: "instr-race", instr: true, race: true},
+	"instrw":        {name: "instrw", instr: true, wide: true},
+	"instrw-race":   {name: "instrw-race", instr: true, wide: true, race: true},
+	"instrs":        {name: "instrs", instr: true, wide: true, strobe: true},
+	"instrs-purego": {name: "instrs-purego", instr: true, wide: true, strobe: true, tags: "purego"},
+	"noavx2":        {name: "noavx2", godebug: "cpu.avx2=off", binOf: "plain"},
+	"purego":        {name: "purego", tags: "purego"},
+	"force32bit":    {name: "force32bit", tags: "force32bit"},
 }
 
 type planItem struct {
